@@ -60,6 +60,8 @@ func (s *PStmt) Line() string {
 		return fmt.Sprintf("\tMOV %s,%s", s.Reg.Text, s.Label)
 	case "lgdt":
 		return fmt.Sprintf("\tLGDT [%s]", s.Label)
+	case "meml":
+		return fmt.Sprintf("\tMOV %s,[%s]", s.Reg.Text, s.Label)
 	case "data":
 		var t []string
 		for _, it := range s.Items {
@@ -109,6 +111,7 @@ type Obs struct {
 	Value int64 // value read from the output
 	// for "$": Want is the true address of the statement containing it
 	Dollar bool
+	Via    string // "meml": the label stands inside the brackets of a memory operand
 }
 
 // Branch: a decoded relative branch.
@@ -196,6 +199,17 @@ func (p *Prog) DoWalk(out []byte) *Walk {
 			}
 			lane := rw / 8
 			w.Obs = append(w.Obs, Obs{Stmt: i, Off: off + in.Len - lane, Width: lane, Label: s.Label, Value: int64(uint64(in.Ops[1].Imm) & widthMask(rw)), Dollar: s.Label == "$"})
+			w.Len[i] = in.Len
+			off += in.Len
+		case "meml":
+			in := Decode(out[minInt(off, len(out)):], mode)
+			w.Decodes = append(w.Decodes, DecQ{Bytes: clip(out[minInt(off, len(out)):], 15), Mode: mode})
+			rw := regWidth(s.Reg.Class)
+			if in.Bad != "" || in.Op != "MOV" || len(in.Ops) != 2 || in.Ops[0].Kind != KReg || in.Ops[0].Class != s.Reg.Class || in.Ops[0].Reg != s.Reg.Reg || in.Ops[1].Kind != KMem || in.Ops[1].Coef != [8]int{} || in.OpSize != rw {
+				return fail(i, "encoding", fmt.Sprintf("statement %d `MOV %s,[%s]` does not decode to a load from an absolute address at offset %d: %s", i, s.Reg.Text, s.Label, off, in))
+			}
+			lane := in.Ops[1].ASize / 8
+			w.Obs = append(w.Obs, Obs{Stmt: i, Off: off + in.Len - lane, Width: lane, Label: s.Label, Value: int64(uint64(in.Ops[1].Disp) & widthMask(in.Ops[1].ASize)), Via: "meml"})
 			w.Len[i] = in.Len
 			off += in.Len
 		case "lgdt":
